@@ -407,6 +407,8 @@ def scanner_tables(ctx, res, rule, mode="sound"):
         # the cursor moves one byte at a time (no byte is skipped unexamined)
         if sl["form"] == "for":
             res.holds(rule, fn, "step:for over %s" % T.render(loop["iter"])[:40])
+        elif not any(n.get("k") == "assign_op" and T.lit_value(n["r"]) == 1 for n in T.nodes(loop["body"])):
+            res.add(Finding(rule, fn, "step:none", "the scan cursor is never moved inside the scan loop: the scan does not terminate on a blank", loc=T.loc(loop)))
         for n in T.nodes(b["tree"]):
             if n.get("k") == "assign_op":
                 if T.lit_value(n["r"]) == 1 and n["op"] in ("+", "-", "+=", "-="):
@@ -510,8 +512,11 @@ def _indent_remover_table(ctx, res, rule, mode="bytes"):
                     bad = "leaves the scan with the value %s, which is neither found (true / Some(start)) nor not-found (false / None)" % A.show(o["value"])
                 elif o["exit"] in ("fall", "continue"):
                     outcome = "advance"
+                    final = [e[1] for e in o["effects"] if e[0] == "final"]
                     if examined and boundary and not is_blank:
                         bad = "skips over byte %s (only ' ' and '\\t' are indentation)" % cname_
+                    elif scan_name and final and final[-1] != "(%s - 1)" % scan_name:
+                        bad = "goes on to the next iteration with the scan position at `%s`, not one byte further back (`%s - 1`)" % (final[-1], scan_name)
                 else:
                     outcome = "stop"
                 if mode == "begin":
